@@ -44,6 +44,9 @@ type vcFK struct {
 	SelectBy    func(db DB, keys []int64) ([]any, error)
 	DeleteBy    func(db DB, keys []int64) ([]any, []int64, error) // link tables: deleted rows; primary tables: deleted ids
 	SelectOneBy func(db DB, key int64) (any, bool, error)          // only when Unique
+	// pure Go helpers of the collection type (only for non nullable keys)
+	KeysOf func(rows []any) []int64           // (Ts).<F>s()
+	ByKey  func(rows []any) map[int64][]any   // (Ts).By<F>()
 }
 
 type vcKey struct {
@@ -72,6 +75,7 @@ type vcTable struct {
 	DeleteMany func(db DB, ids []int64) ([]int64, error)
 	LinkDelete func(db DB, row any) error
 	InsertMany func(tx *vcsql.Tx, rows []any) error
+	IDsOf      func(rows []any) []int64 // (Ts).IDs() of primary tables
 }
 
 func vcTableByName(name string) *vcTable {
@@ -872,6 +876,54 @@ func TestVerifCRUD(t *vctesting.T) {
 					}
 					if (want != nil) != found || (found && !vcRowsEqual(got, want)) {
 						fail("Select%sBy%s(%d) returned %+v found=%v, the model has %+v", tb.Go, fk.Field, key, got, found, want)
+					}
+				}
+			},
+			"helpers": func(_ *vcrapid.T) {
+				// the pure Go helpers of the collection types, on the current content of a table
+				tb := pickTable(func(t *vcTable) bool { return t.IDsOf != nil || len(t.FKs) > 0 })
+				rows := model.rows[tb.Go]
+				history = append(history, "helpers "+tb.Go)
+				sortInts := func(x []int64) []int64 {
+					out := append([]int64(nil), x...)
+					vcsort.Slice(out, func(i, j int) bool { return out[i] < out[j] })
+					return out
+				}
+				if tb.IDsOf != nil {
+					var want []int64
+					for _, r := range rows {
+						want = append(want, vcID(tb, r))
+					}
+					if got := tb.IDsOf(rows); vcfmt.Sprint(sortInts(got)) != vcfmt.Sprint(sortInts(want)) {
+						fail("(%ss).IDs() returned %v for the ids %v", tb.Go, got, want)
+					}
+				}
+				for _, fk := range tb.FKs {
+					if fk.KeysOf != nil {
+						var want []int64
+						for _, r := range rows {
+							k, _ := vcFKGet(r, fk.Field)
+							want = append(want, k)
+						}
+						if got := fk.KeysOf(rows); vcfmt.Sprint(sortInts(got)) != vcfmt.Sprint(sortInts(want)) {
+							fail("(%ss).%ss() returned %v, expected %v", tb.Go, fk.Field, got, want)
+						}
+					}
+					if fk.ByKey != nil && !fk.Unique {
+						got := fk.ByKey(rows)
+						want := map[int64][]any{}
+						for _, r := range rows {
+							k, _ := vcFKGet(r, fk.Field)
+							want[k] = append(want[k], r)
+						}
+						if len(got) != len(want) {
+							fail("(%ss).By%s() has %d keys, expected %d", tb.Go, fk.Field, len(got), len(want))
+						}
+						for k, w := range want {
+							if d := vcSameMultiset(got[k], w); d != "" {
+								fail("(%ss).By%s()[%d]: %s", tb.Go, fk.Field, k, d)
+							}
+						}
 					}
 				}
 			},
